@@ -8,6 +8,7 @@ package absnfs
 import (
 	"container/list"
 	"os"
+	"strings"
 	"sync"
 	"sync/atomic"
 	"time"
@@ -299,6 +300,22 @@ func (c *AttrCache) Invalidate(path string) {
 
 	c.removeFromAccessLog(path)
 	delete(c.cache, path)
+}
+
+// InvalidateTree removes the entry for path and every entry below it.
+// It is used when a directory is renamed: all cached descendants (positive
+// and negative) describe paths that no longer exist.
+func (c *AttrCache) InvalidateTree(path string) {
+	c.mu.Lock()
+	defer c.mu.Unlock()
+
+	prefix := strings.TrimSuffix(path, "/") + "/"
+	for p := range c.cache {
+		if p == path || strings.HasPrefix(p, prefix) {
+			c.removeFromAccessLog(p)
+			delete(c.cache, p)
+		}
+	}
 }
 
 // Clear removes all entries from the cache
@@ -617,6 +634,20 @@ func (c *DirCache) Invalidate(path string) {
 
 	c.removeFromAccessList(path)
 	delete(c.entries, path)
+}
+
+// InvalidateTree removes the listing cached for path and for every directory below it.
+func (c *DirCache) InvalidateTree(path string) {
+	c.mu.Lock()
+	defer c.mu.Unlock()
+
+	prefix := strings.TrimSuffix(path, "/") + "/"
+	for p := range c.entries {
+		if p == path || strings.HasPrefix(p, prefix) {
+			c.removeFromAccessList(p)
+			delete(c.entries, p)
+		}
+	}
 }
 
 // Clear removes all entries from the cache
